@@ -21,7 +21,8 @@ MANIFEST = {
     'text': 'Every (start, end, size, orphan, overlap) of the grid x supplier '
             '{iterator, generator, lazy __getitem__ sequence} x length '
             '{0..12 subset, unbounded} x body {item, item + all batch '
-            'variables, next form, previous form} is rendered on the real '
+            'variables, next form, previous form, previous-batches, all '
+            'positional and grouping variables} is rendered on the real '
             'code; the supplier logs its pulls: never more than min(length, '
             'window end + step size + orphan), each element once and in '
             'order, __len__ never called on an unbounded supplier, the '
@@ -34,7 +35,7 @@ MANIFEST = {
 }
 RULE = ('start, end in -1..10 (quick) / -1..16 (thorough), size -1..5 / '
         '-1..7, orphan 0..3 / 0..4, overlap 0..3 x 3 suppliers x lengths '
-        '{0,1,2,3,5,8,12,unbounded} (thorough: 0..12, unbounded) x 4 bodies; '
+        '{0,1,2,3,5,8,12,unbounded} (thorough: 0..12, unbounded) x 6 bodies; '
         'plus unbatched renders of bounded suppliers.  A run is non-trivial '
         'when the supplier holds more elements than the bound allows to '
         'pull (so a len()/list() would be visible).')
@@ -137,6 +138,15 @@ BODIES = {
              '<dtml-var next-sequence-size></dtml-if>,' + STEP),
     'next': ('NEXT<dtml-var next-sequence-start-number>-'
              '<dtml-var next-sequence-end-number>' + STEP),
+    'prevb': ('<dtml-var sequence-item><dtml-in previous-batches mapping>'
+              '(<dtml-var batch-start-index>-<dtml-var batch-end-index>-'
+              '<dtml-var batch-size>)</dtml-in>,' + STEP),
+    'vars': ('<dtml-var sequence-item>:<dtml-var sequence-index>:'
+             '<dtml-var sequence-letter>:<dtml-var sequence-Letter>:'
+             '<dtml-var sequence-roman>:<dtml-var sequence-Roman>:'
+             '<dtml-var sequence-even>:<dtml-var sequence-odd>:'
+             '<dtml-var sequence-key>:<dtml-var sequence-var-real>:'
+             '<dtml-var first-real>:<dtml-var last-real>,' + STEP),
     'previous': ('PREV<dtml-var previous-sequence-start-number>-'
                  '<dtml-var previous-sequence-end-number>' + STEP),
 }
@@ -173,7 +183,9 @@ def cases(tier):
         for sup in ('iter', 'gen', 'lazy'):
             if L != INF:
                 yield {'body': 'unbatched', 'L': L, 'sup': sup}
-            for body in ('item', 'full', 'next', 'previous'):
+            for body in ('item', 'full', 'next', 'previous', 'prevb', 'vars'):
+                if body in ('prevb', 'vars') and sup == 'gen':
+                    continue        # a generator behaves as the iterator
                 for size in g['size']:
                     for orphan in g['orphan']:
                         yield {'body': body, 'L': L, 'sup': sup,
@@ -184,6 +196,10 @@ def cases(tier):
 def one(res, case, start, end, overlap):
     L, sup, body = case['L'], case['sup'], case['body']
     size, orphan = case['size'], case['orphan']
+    if body == 'prevb' and overlap and overlap >= size:
+        # previous-batches makes no progress when overlap >= step size (the
+        # degenerate domain C11 excludes); not rendered at all
+        return False
     log = Log()
     seq = supplier(sup, L, log)
     sub = dict(case, start=start, end=end, overlap=overlap)
